@@ -94,7 +94,7 @@ func c14W1(b *core.B, r *core.Rng, nProg int) {
 		text := p.canonical()
 		if pi%3 == 0 {
 			// make sure every third program evaluates a pattern nobody has compiled yet
-			text += "<%= cs ~= \"^zz" + salt + "\" %>"
+			text += "<%= cs ~= \"^zz" + salt + "\" %><%= truncate(cs) %><%= pathFor(pf" + fmt.Sprint(pi%8) + ") %>"
 		}
 		if !b.Begin("W1 " + text) {
 			continue
@@ -115,7 +115,7 @@ func c14W1(b *core.B, r *core.Rng, nProg int) {
 			// for every other program the sequential reference is taken after the
 			// concurrent phase, so that the goroutines are the first to run the
 			// template (lazily initialised or memoised state is then cold)
-			refFirst := pi%2 == 0
+			refFirst := pi%2 == 1
 			var ref c14Obs
 			haveRef := false
 			takeRef := func() bool {
